@@ -2,7 +2,7 @@
 # runs seedrun.py for every delivered seed that has no result yet (3 in parallel)
 cd /verif
 for d in /tmp/seed-out/C*/[abcde]; do
-  [ -f "$d/patch.diff" ] || continue
+  [ -f "$d/patch.diff" ] || continue; case "$d" in */e) [ -f "$d/.done" ] || continue;; esac
   pid=$(basename $(dirname $d)); var=$(basename $d)
   grep -q "^SEED $pid-$var:" /tmp/seedruns.log 2>/dev/null && continue
   echo "$pid $var"
